@@ -645,6 +645,25 @@ def r11_grid_metadata_owner(idx, r):
     r.require(bool(users), "blueprint-sets-geomType-through-the-property", grid, msg="the grid blueprint must label the grid through Grid.geomType")
 
 
+def r12_compose_location_kinds(idx, r):
+    """The layout stores three kinds of location (index 'I', several indices 'M:n', free coordinates 'C') and unpacks them to integers,
+    lists and reals respectively.  When the hierarchy is rebuilt, only index kinds may be looked up on the parent's grid: a child with free
+    coordinates inside a parent that HAS a grid (duct and coolant of a block with a pin lattice) must stay a CoordinateLocation, or a
+    load-then-write cycle stores another location kind than the original."""
+    f = idx.method(DB + ".Database", "_compose")
+    grid_st = [s_ for s_ in iter_stores(f.node) if s_.attr == "spatialLocator" and s_.value is not None and isinstance(s_.value, ast.Subscript) and "spatialGrid" in norm(s_.value.value)]
+    coord_st = [s_ for s_ in iter_stores(f.node) if s_.attr == "spatialLocator" and s_.value is not None and isinstance(s_.value, ast.Call) and (dotted(s_.value.func) or "").endswith("CoordinateLocation")]
+    if len(grid_st) != 1 or not coord_st:
+        raise AnchorMissing("Database._compose: the grid-indexed and the coordinate branch of the locator")
+    env = single_assign_env(f.node)
+    loc = norm(grid_st[0].value.slice)
+    conds = [propagate(t, env) for t, p in path_conditions(f.node, grid_st[0].stmt)]
+    kind = [t for t in conds if any(isinstance(x, ast.Name) and x.id == loc for x in ast.walk(t)) and any(isinstance(x, ast.Call) and dotted(x.func) == "isinstance" for x in ast.walk(t))]
+    r.require(bool(kind), "_compose:grid-lookup-only-for-index-locations", f, node=grid_st[0].stmt,
+              msg=f"`{norm(grid_st[0].stmt)}` is taken whenever the parent has a grid, whatever kind of location was stored: free coordinates (stored type 'C': duct, coolant, "
+                  "intercoolant of a block with a pin grid) come back as IndexLocation (0,0,0) on the pin lattice")
+
+
 def run(idx, chk):
     chk.explanation = (
         "C04: Layout.writeToDB/_readLayout, _createLayout/_initComps/_compose, _packLocationsV3/_unpackLocationsV2, "
@@ -677,3 +696,5 @@ def run(idx, chk):
                  necessary="a grid rebuilt from the stored constructor arguments has the same bounds and steps, bit for bit")
     chk.run_rule("R04.11", "the geometry label of a grid is written through its canonicalising property only", lambda r: r11_grid_metadata_owner(idx, r), floor=2,
                  necessary="a grid rebuilt from its stored constructor arguments has the same metadata")
+    chk.run_rule("R04.12", "when the hierarchy is rebuilt, only index-kind locations are looked up on the parent's grid", lambda r: r12_compose_location_kinds(idx, r), floor=1,
+                 necessary="every object is loaded with the kind of location it was written with")
